@@ -30,7 +30,10 @@ for m in ms:
         try:
             import json; obs.append(json.load(open(v))["obligation"])
         except Exception: pass
-    if m["kind"] == "break":
+    if m["kind"] == "flag":
+        # not refuted, but no longer under contract: the check must say so (exit 2, the obligation named), never pass
+        good = r.returncode == 2 and not viol and re.search(r"UNDECIDED property=\S+ obligation=\S*" + re.escape(m["expect"]), out) is not None
+    elif m["kind"] == "break":
         good = r.returncode == 1 and any(m["expect"] in o for o in obs)
     else:
         good = r.returncode in (0, 2) and not viol
